@@ -31,13 +31,17 @@ PROPS = {
     "C17": one(
         40_000, 8_000_000,
         anchor_files=["tokenizers/utilities/CharReferenceMap.go", "tokenizers/utilities/CharReferenceInterval.go"],
-        rule="A case is one history of 1-30 AddInterval / AddDefaultInterval / Clear / Lookup operations (endpoints and probes from "
-             "{0,'a',0xFF,0x100,0x101,0x2000,0xFFFE} and their neighbours, references A, B, none) on one of: a raw CharReferenceMap, "
-             "a tokenizer's character-state table, a word state's word characters, a whitespace state's whitespace characters; after "
-             "every operation all 19 probe characters are looked up. Non-trivial: at least 3 operations with at least 2 registrations/clears. "
-             "Distinct: hash of (target, operation list).",
+        rule="A case is one history of 1-30 (x size class) AddInterval / AddDefaultInterval / Clear / Lookup operations on one of: a raw CharReferenceMap, "
+             "a tokenizer's character-state table (marker states; each probe character is also really tokenized), a word state's word characters, "
+             "a whitespace state's whitespace characters. Endpoints: {0,'a',0xFF,0x100,0x101,0x2000,0xFFFE} and neighbours, powers of two 2^6..2^16 +-1, "
+             "characters text processing likes to special-case (U+FEFF, U+FFFD, U+200B, U+00A0, U+2028, ...), random, or relative to earlier endpoints; "
+             "references A, B, an uncomparable C, none. On the tokenizer target also: a registration (state A/B, none, clear all) made by a state from inside "
+             "its NextToken while the tokenizer skips that state's token, followed by more of the same character. Observation per run: after every "
+             "operation, every k-th, or only at the end; an observation looks up the boundary set, the endpoints of the last 6 registrations +-2, "
+             "single-bit flips of the latest endpoints, and periodically the powers of two and the special characters. "
+             "Non-trivial: at least 3 operations with at least 2 registrations/clears. Distinct: hash of (target, operation list).",
         state_measure="distinct vectors (model answer for each of the 19 probe characters, target)",
-        probes=["range_spans_boundary", "unregister_above_0x100", "word_split_checked"],
+        probes=["range_spans_boundary", "unregister_above_0x100", "word_split_checked", "registration_made_while_tokenizing"],
         real=["utilities.CharReferenceMap", "tokenizers.AbstractTokenizer.Set/GetCharacterState", "generic.GenericWordState", "generic.GenericWhitespaceState"],
         stub=[],
         assumptions=["model: list of registrations, newest covering one wins, a nil reference un-registers",
